@@ -214,13 +214,13 @@ def run_unit(ctx):
     H, rng = ctx.harness, ctx.rng
     thorough = ctx.tier == "thorough"
     t0 = time.time()
-    n_tile, n_resize, nper = (2500, 2000, 600) if thorough else (300, 200, 100)
+    n_tile, n_resize, nper = (4000, 3000, 800) if thorough else (600, 400, 150)
     if thorough:
         tile = gen_tile_cases(rng, n_tile)
         resize = gen_resize_cases(rng, n_resize)
     else:
-        tile = gen_tile_cases(rng, n_tile, maxelems=160, maxpadded=420, maxbytes=400)
-        resize = gen_resize_cases(rng, n_resize, maxelems=120, maxpadded=360)
+        tile = gen_tile_cases(rng, n_tile, maxelems=300, maxpadded=800, maxbytes=800)
+        resize = gen_resize_cases(rng, n_resize, maxelems=200, maxpadded=600)
     conv = gen_conv_cases(rng, nper)
     enc = gen_enc_cases(rng, nper)
     cases = tile + resize + conv + enc
@@ -237,8 +237,9 @@ def run_unit(ctx):
         viol.append(dict(what=what, failing_input=c, case=c, impl={k: v for k, v in r.items() if k != "stack"}, **kw))
 
     # ---- specification on the Go outputs (Python oracle)
-    vparts = ["From HV Require Import Base.Prelude Model.Chunk Model.Elem Model.ChunkTie.\nFrom Coq Require Import Uint63.\nOpen Scope N_scope.\nOpen Scope string_scope.\n"]
-    labels = []        # (label, kind, list of case indices)
+    header = ("From HV Require Import Base.Prelude Model.Chunk Model.Elem Model.ChunkTie.\nFrom Coq Require Import Uint63.\n"
+              "Open Scope N_scope.\nOpen Scope string_scope.\n")
+    groups = []        # (Coq text, [(label, kind, list of case indices)]): independent pieces, evaluated by parallel coqc runs
     tile_terms, tile_idx = [], []
     for i, (c, r) in enumerate(zip(cases, res)):
         if c["mode"] not in ("tile", "resize"):
@@ -286,13 +287,13 @@ def run_unit(ctx):
         if len(samples) < 4 and len(dims) >= 2 and len(got) >= 4 and any(d % k for d, k in zip(dims, cdims)):
             samples.append(dict(mode=c["mode"], dims=dims, cdims=cdims, newdims=rdims, esz=esz, chunks=len(got),
                                 first_chunk=got[0], read_ok=r["read"]["ok"]))
-    for k, part in chunked(list(range(len(tile_terms))), 250):
+    for k, part in chunked(list(range(len(tile_terms))), 60):
         name = "tile_%d" % k
-        vparts.append("Definition %s : list tilecase := [%s].\n" % (name, ";".join(tile_terms[j] for j in part)))
-        vparts.append("Definition bad_%s := Eval vm_compute in mismatches tile_ok %s.\n" % (name, name))
-        vparts.append("Definition spec_%s := Eval vm_compute in mismatches tile_spec_ok %s.\n" % (name, name))
-        labels.append(("bad_" + name, "model", [tile_idx[j] for j in part]))
-        labels.append(("spec_" + name, "coqspec", [tile_idx[j] for j in part]))
+        groups.append(("Definition %s : list tilecase := [%s].\n" % (name, ";".join(tile_terms[j] for j in part))
+                       + "Definition bad_%s := Eval vm_compute in mismatches tile_ok %s.\n" % (name, name)
+                       + "Definition spec_%s := Eval vm_compute in mismatches tile_spec_ok %s.\n" % (name, name),
+                       [("bad_" + name, "model", [tile_idx[j] for j in part]),
+                        ("spec_" + name, "coqspec", [tile_idx[j] for j in part])]))
 
     # ---- element conversion
     conv_terms, conv_idx = [], []
@@ -327,9 +328,11 @@ def run_unit(ctx):
         conv_idx.append(i)
         if c["dtype"] in ("uint32", "int64"):
             samples.append(dict(mode="conv", dtype=c["dtype"], raw=c["raw"][:48], f64=r.get("f64", [])[:3]))
-    vparts.append("Definition conv_cases : list convcase := [%s].\n" % ";".join(conv_terms))
-    vparts.append("Definition bad_conv := Eval vm_compute in mismatches conv_ok conv_cases.\n")
-    labels.append(("bad_conv", "model", conv_idx))
+    for k, part in chunked(list(range(len(conv_terms))), 4):
+        name = "conv_%d" % k
+        groups.append(("Definition %s : list convcase := [%s].\n" % (name, ";".join(conv_terms[j] for j in part))
+                       + "Definition bad_%s := Eval vm_compute in mismatches conv_ok %s.\n" % (name, name),
+                       [("bad_" + name, "model", [conv_idx[j] for j in part])]))
 
     # ---- encoders and strings (encode with Go, decode with Go, compare with model and oracle)
     encint_terms, encint_idx, encstr_terms, encstr_idx = [], [], [], []
@@ -371,29 +374,46 @@ def run_unit(ctx):
                     % (n, strs[j].hex(), dr["strs"][j] if dr.get("ok") else dr.get("err"), exp[j]), dict(cases[i], decode=dc), dr)
             decstr_terms.append("(%d%%nat,\"%s\",[%s])" % (n, dc["raw"], ";".join('"%s"' % s for s in dr.get("strs", []))))
         samples.append(dict(mode="string", size=dec_cases[0]["size"], written=cases[dec_src[0][0]]["strs"][:3], read=dres[0].get("strs", [])[:3]))
-    vparts.append("Definition encint_cases : list encintcase := [%s].\n" % ";".join(encint_terms))
-    vparts.append("Definition bad_encint := Eval vm_compute in mismatches encint_ok encint_cases.\n")
-    labels.append(("bad_encint", "model", encint_idx))
-    vparts.append("Definition encstr_cases : list (nat * list string * string) := [%s].\n" % ";".join(encstr_terms))
-    vparts.append("Definition bad_encstr := Eval vm_compute in mismatches encstr_ok encstr_cases.\n")
-    labels.append(("bad_encstr", "model", encstr_idx))
-    vparts.append("Definition decstr_cases : list (nat * string * list string) := [%s].\n" % ";".join(decstr_terms))
-    vparts.append("Definition bad_decstr := Eval vm_compute in mismatches decstr_ok decstr_cases.\n")
-    labels.append(("bad_decstr", "model", [i for i, _ in dec_src]))
+    groups.append(("Definition encint_cases : list encintcase := [%s].\n" % ";".join(encint_terms)
+                   + "Definition bad_encint := Eval vm_compute in mismatches encint_ok encint_cases.\n"
+                   + "Definition encstr_cases : list (nat * list string * string) := [%s].\n" % ";".join(encstr_terms)
+                   + "Definition bad_encstr := Eval vm_compute in mismatches encstr_ok encstr_cases.\n"
+                   + "Definition decstr_cases : list (nat * string * list string) := [%s].\n" % ";".join(decstr_terms)
+                   + "Definition bad_decstr := Eval vm_compute in mismatches decstr_ok decstr_cases.\n",
+                   [("bad_encint", "model", encint_idx), ("bad_encstr", "model", encstr_idx),
+                    ("bad_decstr", "model", [i for i, _ in dec_src])]))
 
     # ---- Coq model on the same cases
-    vparts.append("Definition ALLBAD := Eval vm_compute in [%s].\nPrint ALLBAD.\n" % ";".join("N.of_nat (List.length %s)" % l[0] for l in labels))
-    for l in labels:
-        vparts.append("Print %s.\n" % l[0])
+    import concurrent.futures as cf
+    nfiles = max(1, min(12, len(groups)))
+    buckets = [[] for _ in range(nfiles)]
+    for k, g in enumerate(groups):
+        buckets[k % nfiles].append(g)
+
+    def eval_bucket(kb):
+        k, b = kb
+        labs = [l for _, ls in b for l in ls]
+        text = (header + "".join(t for t, _ in b)
+                + "Definition ALLBAD := Eval vm_compute in [%s].\nPrint ALLBAD.\n" % ";".join("N.of_nat (List.length %s)" % l[0] for l in labs)
+                + "".join("Print %s.\n" % l[0] for l in labs))
+        o = vlib.coq_eval(text, "c01unit_cases_%d" % k)
+        return labs, vlib.parse_nlist(o, "ALLBAD"), o
+
     t1 = time.time()
-    out = vlib.coq_eval("".join(vparts), "c01unit_cases")
+    with cf.ThreadPoolExecutor(nfiles) as ex:
+        parts = list(ex.map(eval_bucket, enumerate(buckets)))
     coq_s = time.time() - t1
-    counts = vlib.parse_nlist(out, "ALLBAD")
+    labels, counts, outs = [], [], {}
+    for labs, cnts, o in parts:
+        labels += labs
+        counts += cnts
+        for l in labs:
+            outs[l[0]] = o
     for (lab, kind, idxs), nbad in zip(labels, counts):
         if nbad == 0:
             continue
         shown = 0
-        for j in vlib.parse_nlist(out, lab):
+        for j in vlib.parse_nlist(outs[lab], lab):
             i = idxs[j]
             c, r = cases[i], res[i]
             if i in spec_failed:
